@@ -1015,7 +1015,7 @@ func c21R5(r *Run, lx *c21Lexer) {
 					}
 					return rhs, true
 				}
-			case *ast.DeclStmt:
+			case *ast.DeclStmt, *ast.ValueSpec:
 				found := false
 				var rhs ast.Expr
 				ast.Inspect(x, func(m ast.Node) bool {
@@ -1066,7 +1066,20 @@ func c21R5(r *Run, lx *c21Lexer) {
 					continue
 				}
 				db, di := g.Locate(d)
-				if db == nil || !cgxReaches(g, db, di+1, tb, ti, nil) {
+				if db == nil {
+					continue
+				}
+				// d matters only if it is a definition that reaches the target: no other definition of v in between
+				live := false
+				cgxWalk(g, db, di+1, func(b *cfg.Block, i int, n ast.Node) bool {
+					if b == tb && i == ti {
+						live = true
+						return true
+					}
+					_, redefined := baseDefRHS(n, v)
+					return redefined
+				}, nil)
+				if !live {
 					continue
 				}
 				for _, w := range varsOf(rhs) {
